@@ -13,7 +13,7 @@ COMMON_ASSUMPTIONS = [
     "selftest/validate_tls_model.py",
     "reference QUIC peer validated on RFC 9001 Appendix A vectors and RFC 9000 A.3 example: selftest/validate_quic_model.py",
     "IDEA-CBC and the TLS 1.3 CCM record layer have no sample capture; validated by model round trip only",
-    "CPU budget (RLIMIT_CPU 60 s, ~3000x a typical run) is the hang criterion; wall timeouts are harness errors",
+    "CPU budget (RLIMIT_CPU 120 s; typical run 0.02-0.3 s, generated captures are capped at ~1000 segments per direction) is the hang criterion; wall timeouts are harness errors",
     "fork-server run of tlexport.main.run() == CLI run (sampled by C18 through a real `python -m tlexport.main`)",
 ]
 
